@@ -1,9 +1,168 @@
-(** C16 — property theorems: statements closed by [exact]. *)
-From Coq Require Import ZArith QArith List.
-From KV Require Import Base.Outcome Base.Num C06.Model C16.Model C16.ProofsWitness.
+(** C16 — property theorems: statements (as printed by Coq) closed by [exact]. *)
+From Coq Require Import ZArith QArith Qround List.
+From KV Require Import Base.Outcome Base.Num C06.Model C06.Dur C06.Proofs C16.Model C16.ProofsWitness C16.ProofsProtocol
+  C16.ProofsStale C16.ProofsScaling C16.ProofsExamples.
 Import ListNotations.
 Local Open Scope Z_scope.
 
+Theorem rate_in_force_guarded :
+  forall (fo : Z -> Z -> Z) (sr ibs : Z) (main : list eshape) (h : list op),
+       no_race fo (init_state sr ibs main) h = true -> all_in_force fo (init_state sr ibs main) h.
+Proof. exact @rate_in_force_guarded_l. Qed.
+
+Theorem rate_in_force_all_histories :
+  forall (fo : Z -> Z -> Z) (sr ibs : Z) (main : list eshape) (h : list op) (n : Z),
+       let s := fst (run fo (init_state sr ibs main) h) in
+       let s' := fst (step fo s (A_callback n)) in
+       Inv s /\
+       Forall (ev_fine (s_rate s') (s_rate s') (flat_map raced_ids (s_subs s' ++ s_sends s')))
+         (snd (step fo s (A_callback n))).
+Proof. exact @rate_in_force_all_histories_l. Qed.
+
+Theorem change_reaches_tracks_in_the_arenas :
+  forall (fo : Z -> Z -> Z) (s : state) (r : Z),
+       let s' := fst (step fo s (A_change r)) in
+       s_rate s' = r /\
+       s_dtr s' = r /\ fa (eff_fresh r) (s_main s') /\ fa (arena_fresh r) (s_subs s' ++ s_sends s').
+Proof. exact @change_reaches_arena_l. Qed.
+
+Theorem track_added_after_change_knows_rate :
+  forall (fo : Z -> Z -> Z) (s : state) (slot : Z) (sh : tshape),
+       find_pending slot (s_pend s) = None ->
+       let s1 := fst (step fo s (G_load slot DSub sh)) in
+       let s2 := fst (step fo s1 (G_enqueue slot)) in
+       exists t : track,
+         s_subq s2 = s_subq s ++ [t] /\
+         trk_inv (s_rate s) t = true /\ trk_raced t = false /\ s_rate s2 = s_rate s.
+Proof. exact @add_after_change_l. Qed.
+
 Theorem stale_rate_refuted :
-  exists h, no_race fo0 (init_state 1000 4 []) h = false /\ ~ all_in_force fo0 (init_state 1000 4 []) h.
-Proof. exact stale_rate_refuted_l. Qed.
+  exists h : list op, no_race fo0 init0 h = false /\ ~ all_in_force fo0 init0 h.
+Proof. exact @stale_rate_refuted_l. Qed.
+
+Theorem stale_rate_racy_refuted :
+  exists h : list op, no_race fo0 init0 h = false /\ ~ all_in_force fo0 init0 h.
+Proof. exact @stale_rate_racy_refuted_l. Qed.
+
+Theorem stale_rate_witness_add_change_callback :
+  no_race fo0 init0 h_add_change_cb = false /\
+       all_in_forceb fo0 init0 h_add_change_cb = false /\
+       snd (run fo0 init0 h_add_change_cb) = [(0, 1000, 2000, 4)].
+Proof. exact @witness_add_change_cb. Qed.
+
+Theorem stale_rate_witness_load_change_enqueue_callback :
+  no_race fo0 init0 h_load_change_enq_cb = false /\
+       all_in_forceb fo0 init0 h_load_change_enq_cb = false /\
+       snd (run fo0 init0 h_load_change_enq_cb) = [(0, 1000, 2000, 4)].
+Proof. exact @witness_load_change_enq_cb. Qed.
+
+Theorem rate_in_force_witness_good_orders :
+  no_race fo0 init0 h_add_cb_change_cb = true /\
+       all_in_forceb fo0 init0 h_add_cb_change_cb = true /\
+       snd (run fo0 init0 h_add_cb_change_cb) = [(0, 1000, 1000, 4); (0, 2000, 2000, 4)] /\
+       no_race fo0 init0 h_change_add_cb = true /\
+       all_in_forceb fo0 init0 h_change_add_cb = true /\
+       snd (run fo0 init0 h_change_add_cb) = [(0, 2000, 2000, 4)].
+Proof. exact @witness_good_orders. Qed.
+
+Theorem stale_rate_general :
+  forall (fo : Z -> Z -> Z) (sr ibs : Z) (main : list eshape) (tid : Z) (effs : list eshape) 
+         (i : Z) (fb : list eshape) (r n : Z),
+       r <> sr ->
+       0 < n ->
+       In (SEff i KProbe fb) effs ->
+       ~
+       all_in_force fo (init_state sr ibs main)
+         [G_load 0 DSub (tid, effs); G_enqueue 0; A_change r; A_callback n] /\
+       ~
+       all_in_force fo (init_state sr ibs main)
+         [G_load 0 DSub (tid, effs); A_change r; G_enqueue 0; A_callback n].
+Proof. exact @stale_rate_general_l. Qed.
+
+Theorem sound_position_scaling :
+  forall (fuel : nat) (s : Z) (rho : Q) (segs : list segment),
+       0 <= s ->
+       (0 <= rho)%Q ->
+       Forall valid_seg segs ->
+       (forall sg : segment,
+        In sg segs -> (inject_Z s * rho / inject_Z (fst sg) + 1 < inject_Z (Z.of_nat fuel))%Q) ->
+       exists (pos : Z) (frac : Q),
+         acc_run fuel (0, 0%Q) (sound_steps s rho segs) = Ok (pos, frac) /\
+         (0 <= frac)%Q /\
+         (frac < 1)%Q /\
+         inject_Z pos + frac == inject_Z s * rho * total_time segs /\
+         pos = Qfloor (inject_Z s * rho * total_time segs).
+Proof. exact @sound_position_scaling_l. Qed.
+
+Theorem sound_duration_in_seconds :
+  forall (s N : Z) (rho t : Q),
+       (0 < inject_Z s * rho)%Q ->
+       N <= Qfloor (inject_Z s * rho * t) <-> (inject_Z N / (inject_Z s * rho) <= t)%Q.
+Proof. exact @sound_duration_l. Qed.
+
+Theorem clock_scaling :
+  forall (fuel : nat) (tps : Q) (segs : list segment),
+       (0 <= tps)%Q ->
+       Forall valid_seg segs ->
+       (forall (sg : segment) (c : Z),
+        In sg segs ->
+        In c (snd sg) -> (tps * (inject_Z c / inject_Z (fst sg)) + 1 < inject_Z (Z.of_nat fuel))%Q) ->
+       exists (ticks : Z) (frac : Q),
+         acc_run fuel (0, 0%Q) (clock_steps tps segs) = Ok (ticks, frac) /\
+         (0 <= frac)%Q /\
+         (frac < 1)%Q /\
+         inject_Z ticks + frac == tps * total_time segs /\ ticks = Qfloor (tps * total_time segs).
+Proof. exact @clock_scaling_l. Qed.
+
+Theorem tween_time_scaling :
+  forall (segs : list segment) (D : Q),
+       Forall valid_seg segs ->
+       (0 < D)%Q ->
+       elapsed Immediate 0 (tween_updates segs) == total_time segs /\
+       (completes Immediate D 0 (tween_updates segs) = true <-> (D <= total_time segs)%Q).
+Proof. exact @tween_time_scaling_l. Qed.
+
+Theorem rate_independence :
+  forall (fuel : nat) (s : Z) (rho tps : Q) (segs1 segs2 : list segment),
+       0 <= s ->
+       (0 <= rho)%Q ->
+       (0 <= tps)%Q ->
+       Forall valid_seg segs1 ->
+       Forall valid_seg segs2 ->
+       (forall sg : segment,
+        In sg (segs1 ++ segs2) -> (inject_Z s * rho / inject_Z (fst sg) + 1 < inject_Z (Z.of_nat fuel))%Q) ->
+       (forall (sg : segment) (c : Z),
+        In sg (segs1 ++ segs2) ->
+        In c (snd sg) -> (tps * (inject_Z c / inject_Z (fst sg)) + 1 < inject_Z (Z.of_nat fuel))%Q) ->
+       total_time segs1 == total_time segs2 ->
+       exists (pos : Z) (f1 f2 : Q) (ticks : Z) (g1 g2 : Q),
+         acc_run fuel (0, 0%Q) (sound_steps s rho segs1) = Ok (pos, f1) /\
+         acc_run fuel (0, 0%Q) (sound_steps s rho segs2) = Ok (pos, f2) /\
+         f1 == f2 /\
+         acc_run fuel (0, 0%Q) (clock_steps tps segs1) = Ok (ticks, g1) /\
+         acc_run fuel (0, 0%Q) (clock_steps tps segs2) = Ok (ticks, g2) /\
+         g1 == g2 /\ elapsed Immediate 0 (tween_updates segs1) == elapsed Immediate 0 (tween_updates segs2).
+Proof. exact @rate_independence_l. Qed.
+
+Theorem delay_time_error :
+  forall t_ns sr : Z,
+       0 <= t_ns ->
+       0 < sr ->
+       (secs_of_ns t_ns * inject_Z sr < inject_Z (2 ^ 64 - 1))%Q ->
+       let T := secs_of_ns t_ns in
+       let L := delay_frames t_ns sr in
+       ((1 <= T * inject_Z sr)%Q ->
+        L = Qfloor (T * inject_Z sr) /\ (T - 1 / inject_Z sr < inject_Z L / inject_Z sr <= T)%Q) /\
+       ((T * inject_Z sr < 1)%Q -> L = 1 /\ (T < inject_Z L / inject_Z sr <= T + 1 / inject_Z sr)%Q).
+Proof. exact @delay_time_error_l. Qed.
+
+Theorem filter_coeff_depends_on_ratio :
+  forall (pi lo hi : Q) (tan : Q -> Q) (f1 f2 : Q) (sr1 sr2 : Z),
+       (forall a b : Q, a == b -> tan a == tan b) ->
+       0 < sr1 ->
+       0 < sr2 ->
+       f1 / inject_Z sr1 == f2 / inject_Z sr2 ->
+       filter_g pi lo hi tan f1 (dt_of sr1) == filter_g pi lo hi tan f2 (dt_of sr2) /\
+       eq_g pi lo hi tan f1 (dt_of sr1) == eq_g pi lo hi tan f2 (dt_of sr2) /\
+       filter_arg lo hi f1 (dt_of sr1) == nclamp (f1 / inject_Z sr1)%Q lo hi.
+Proof. exact @filter_coeff_depends_on_ratio_l. Qed.
